@@ -1613,6 +1613,17 @@ func (ex *explorer) doCall(st *State, in ssa.Instruction, c *ssa.CallCommon, val
 				ex.havocArgs(st, iargs[1:], site)
 				return false
 			}
+			// a bound method value of a concrete type: the method itself, applied to the bound receiver
+			mf := calleeT.Fn.Prog.FuncValue(m)
+			if mf == nil {
+				mf = calleeT.Fn.Prog.FuncValue(m.Origin())
+			}
+			if mf != nil {
+				fn = resolveBody(mf)
+				args = append([]*Term{calleeT.Args[0]}, args...)
+				bindings = nil
+				calleeT = &Term{Op: "fn", Fn: fn}
+			}
 		}
 	}
 	if fn != nil && ex.canInlineAt(st, fn, site) {
